@@ -415,6 +415,10 @@ def gen_op(rng, is_dict, init, objs, handles, reader, profile):
         if name == "dpop":
             return (tgt, name, rng.choice(keys), None)
         if name == "dupdate":
+            if rng.random() < 0.5:
+                # several keys in one call: an operation whose effect could be applied in part
+                k1, k2 = rng.sample(keys, 2)
+                return (tgt, name, {k1: v, k2: rng.choice(VALS)}, {})
             return (tgt, name, {rng.choice(keys): v}, {})
         if name == "dsetdefault":
             return (tgt, name, rng.choice(keys), v)
@@ -469,7 +473,11 @@ def judge(prog, serial, run, profile):
         v.append((("C10",) + (("C13",) if prog.buffered else ()), "deadlock", "deadlock: %s" % run["deadlock"]))
         return v
     if run["leaks"]:
-        v.append((("C10",), "leak", "after all threads finished: %s" % "; ".join(run["leaks"])))
+        # a lock that is still held when every thread has finished: some operation did not complete
+        # its protocol because of the interleaving (C10; for programs of writers also C09 / C13)
+        has_rd = any(op[1] not in MUTATORS and op[1] not in ("center", "cexit", "enter", "exit", "setfilename") for t in prog.threads for op in t)
+        extra = () if has_rd else (("C13",) if prog.buffered else ("C09",))
+        v.append((("C10",) + extra, "leak", "after all threads finished: %s" % "; ".join(run["leaks"])))
         return v
     if run["thread_exc"]:
         v.append((("C09", "C13", "C14"), "crash", "a thread died: %s" % run["thread_exc"][0]))
@@ -679,6 +687,7 @@ def unit_conc(args):
     try:
         prog = gen_program(rng, fam, profile)
         prog.strategy = fam.buffered
+        prog._ctx = (ns, fam)
         serial = [run_serial(ns, fam, prog, o) for o in serial_orders(prog)]
         n = 0
         found = {}
@@ -699,6 +708,16 @@ def unit_conc(args):
                     if sig not in found:
                         found[sig] = dict(props=list(props), msg=msg, fam=fam.short, kind="conc", sig=sig, ops=None,
                                           extra=dict(prog=repr(prog), switches=list(switches), start=st, fam_index=fam_index))
+        if profile in ("writers", "buffered"):
+            # one more preemption, at lock transitions only (cheap: few such points): races in the
+            # locking itself need a thread to be interrupted twice
+            for switches, start, run in S.explore(lambda ch: run_once(ch), bound + 1, max(budget // 2, 1), ("acq", "rel")):
+                n += 1
+                for props, kind, msg in judge(prog, serial, run, profile):
+                    sig = c14_signature(prog, run, kind) if "C14" in props else "%s:%s" % (props[0], kind)
+                    if sig not in found:
+                        found[sig] = dict(props=list(props), msg=msg, fam=fam.short, kind="conc", sig=sig, ops=None,
+                                          extra=dict(prog=repr(prog), switches=list(switches), start=None, fam_index=fam_index))
         n_line = 0
         if nrand:
             base = run_scheduled(ns, fam, prog, S.Forced(), line_level=True)
